@@ -65,6 +65,8 @@ type Prop struct {
 	Stages      []*Stage
 	// Setup runs once per worker process before any case.
 	Setup func(w *Worker)
+	// Conclude inspects the merged result and returns reasons for an inconclusive verdict (nil = none).
+	Conclude func(total *Result) []string
 }
 
 var registry = map[string]*Prop{}
